@@ -64,7 +64,6 @@ def translate(line, out):
     nreaders = 0
     nwriters = 0
     slot_key = {}
-    deleted_readers = set()
 
     def split_out(o):
         toks = o.split()
@@ -155,8 +154,6 @@ def translate(line, out):
                 imm = ("rc", rc_code(toks[2]))
             evs.append((now, "OWrite %d %s %s" % (slot, cz(k), cz(ts)), imm, ds))
             continue
-        if name == "delR" and len(toks) > 1 and toks[1] == "0":
-            deleted_readers.add(int(t[1]))
         if name in ("net", "adv", "ms", "delR"):
             # event tokens in order; a completion belongs to the event before it.  `adv`: the
             # completions happened at timer wake-ups of the worker (one tick carries them)
@@ -175,12 +172,9 @@ def translate(line, out):
                         continue
                     new = set() if lst == "-" else set(int(y) for y in lst.split(","))
                     for r in sorted(matched - new):
-                        # the SEDP dispose of a single deleted reader only shrinks the DCPS matched
-                        # list (remove_discovered_reader): the RTPS reader proxy stays in the
-                        # writer (stale proxy, DESIGN D19), so for the KEEP_LAST logic nothing
-                        # happens; only the removal of a whole participant deletes the proxy
-                        if r not in deleted_readers:
-                            cur.append([now, "OUnmatch %d" % r, None, []])
+                        # losing a match also deletes the RTPS reader proxy (repo commit 6603216;
+                        # before it the proxy of a deleted reader stayed behind, DESIGN D19)
+                        cur.append([now, "OUnmatch %d" % r, None, []])
                     for r in sorted(new - matched):
                         cur.append([now, "OMatch %d %s" % (r, cbool(reader_rel.get(r, True))), None, []])
                     matched = new
